@@ -34,7 +34,6 @@ theorem faultKind_persist (pol : Policy) (hp : pol.persist = true) (pl : List Pr
   · simp [hp]
   · simp [hp]
   · simp [hp]
-  · simp [hp]
   · rename_i g h; exact Or.inr ⟨rfl, g, h⟩
   · exact Or.inl rfl
 
@@ -65,11 +64,38 @@ theorem faultKind_guarded (pol : Policy) (pl : List Prim) (k : Nat)
   unfold faultKind
   rw [hg]
 
-theorem faultKind_guardedClose (pol : Policy) (pl : List Prim) (k : Nat)
-    (hg : pl[k]? = some (.tmp .guardedClose)) :
-    faultKind pol pl k =
-      if pol.exc = .perm ∧ pol.persist = false then .truncates else .raises := by
+/-- the only absorbed error that costs members: a transient one at a re-opening of the archive -/
+theorem faultKind_truncates_iff (pol : Policy) (pl : List Prim) (k : Nat) :
+    faultKind pol pl k = .truncates ↔ (pl[k]? = some (.tmp .reopen) ∧ pol.persist = false) := by
+  unfold faultKind
+  split
+  · rename_i h; rw [h]; cases pol.persist <;> simp
+  · rename_i h; rw [h]; cases pol.persist <;> simp
+  · rename_i h; rw [h]; split <;> simp
+  · rename_i h; rw [h]; simp
+  · rename_i h1 h2 h3 h4
+    constructor
+    · intro hc; cases hc
+    · intro hc; exact absurd hc.1 h2
+
+/-- an operation nobody guards: whatever is raised there ends the save -/
+theorem faultKind_plain (pol : Policy) (pl : List Prim) (k : Nat)
+    (hg : pl[k]? = some (.tmp .plain)) : faultKind pol pl k = .raises := by
   unfold faultKind
   rw [hg]
+
+/-- the old rule differs from the present one at the close inside the loop only -/
+theorem faultKindOld_eq (pol : Policy) (pl : List Prim) (k : Nat)
+    (h : pl[k]? ≠ some (.tmp .guardedClose)) : faultKindOld pol pl k = faultKind pol pl k := by
+  unfold faultKindOld
+  split
+  · rename_i hc; exact absurd hc h
+  · rfl
+
+theorem saveOld_eq (maxB : Nat) (sv : Save) (k : Nat) (fs : FS)
+    (h : (plan maxB sv fs)[k]? ≠ some (.tmp .guardedClose)) :
+    saveOld maxB sv k fs = save maxB sv k fs := by
+  unfold saveOld save
+  rw [faultKindOld_eq _ _ _ h]
 
 end MxModel.Backup
